@@ -238,7 +238,9 @@ pub fn bounds(tier: Tier) -> Bounds {
             large: false,
         },
         Tier::Thorough => Bounds {
-            topo_nodes: n.unwrap_or(4),
+            // binary sweeps (C01, C03): forests of up to 5 nodes (20 M cases, ~9 min); the XML
+            // sweeps cap this at 4 in c02_cases (the XML codec is ~4x slower per round trip)
+            topo_nodes: n.unwrap_or(5),
             topo_classes: 3,
             k3: true,
             large: true,
@@ -258,8 +260,8 @@ pub fn c01_cases(b: &Bounds) -> Vec<CaseDesc> {
 
 pub fn c02_cases(b: &Bounds) -> Vec<CaseDesc> {
     let mut cases = value_cases(Codec::Xml, &crate::vals::xml_types(), b.k3, b.large);
-    cases.extend(topo_cases(b.topo_nodes, b.topo_classes));
-    cases.extend(crate::codec::service_topo_cases(b.topo_nodes));
+    cases.extend(topo_cases(b.topo_nodes.min(4), b.topo_classes));
+    cases.extend(crate::codec::service_topo_cases(b.topo_nodes.min(4)));
     for l in crate::vals::text_alphabet(b.large) {
         cases.push(CaseDesc::Name { label: l.0 });
     }
@@ -349,7 +351,7 @@ pub fn check_c02(run: &Run) -> Value {
         "distinct_nontrivial": total.nontrivial,
         "outcomes": total.outcomes,
         "samples": total.samples.iter().map(|s| serde_json::from_str::<Value>(s).unwrap()).collect::<Vec<_>>(),
-        "bounds": {"topology_max_nodes": b.topo_nodes, "classes": b.topo_classes, "column_triples": b.k3, "large_blobs": b.large, "depths": [1,2,3,10,100,300],
+        "bounds": {"topology_max_nodes": b.topo_nodes.min(4), "classes": b.topo_classes, "column_triples": b.k3, "large_blobs": b.large, "depths": [1,2,3,10,100,300],
                    "option_pairings": ["default/default", "WriteUnknown/ReadUnknown", "NoReflection/NoReflection"]},
         "exhaustive": true,
         "rule": "every case of the bounded enumeration (as C01, XML type set, text alphabet in names and values, chains to depth 300) is written by rbx_xml and read back under every option pairing that keeps the property; floats compared bit-exactly except NaN (as a class)",
